@@ -24,7 +24,8 @@ CLAIMED = {
     'C12': ('4 C10/C11/C12/C16', 'seeded deterministic simulation of operation histories: bystander fingerprints of every '
                                  'live object after every operation, (producer, in-place mutator) pairs, introspected call sweep'),
     'C16': ('4 C10/C11/C12/C16', 'seeded deterministic simulation with a file-system seam: save/load/overwrite histories, '
-                                 'dirty handles, injected write faults and crash snapshots against a path->last-acknowledged-object model'),
+                                 'dirty and re-opened handles, injected write faults, crash snapshots, second-generation saves and two saves in flight '
+                                 'at once (two threads switched at the file seam by a seeded scheduler) against a path->last-acknowledged-object model'),
 }
 
 NA = {
